@@ -3,6 +3,8 @@
 #include <fcntl.h>
 #include <sys/mman.h>
 #include <unistd.h>
+#include <signal.h>
+#include <thread>
 #include "val.hpp"
 namespace vf {
 struct HeapCopy {
@@ -87,8 +89,8 @@ inline POut parse_fresh(const std::string &bytes, int flags, int depth, bool nul
 	json_tokener_free(tok);
 	return r;
 }
-// The descriptor / file entry points on real kernel objects. how: 0 memory file + json_object_from_fd, 1 packet-mode
-// pipe written in several pieces + json_object_from_fd (every read is short), 2 the same pipe opened by path through
+// The descriptor / file entry points on real kernel objects. how: 0 memory file + json_object_from_fd, 1 pipe
+// fed in small pieces by a writer thread + json_object_from_fd (reads come back short), 2 the same pipe opened by path through
 // json_object_from_file (a file whose size reads as 0), 3 memory file by path through json_object_from_file.
 // Returns false when the kernel object could not be set up (nothing explored).
 inline bool parse_via_fd(const std::string &bytes, int how, size_t piece, json_object **out)
@@ -114,41 +116,55 @@ inline bool parse_via_fd(const std::string &bytes, int how, size_t piece, json_o
 		close(fd);
 		return ok;
 	}
-	if (bytes.size() > 48000)
-		return false; // must fit the pipe buffer: the writer and the reader are the same thread
+	// A stream pipe fed by a writer thread in small pieces with pauses: the reader's read() calls come back short
+	// whatever buffer size it uses (packet-mode pipes would silently drop the part of a packet that does not fit the
+	// reader's buffer - that would make the outcome depend on an internal buffer size). The expected result does not
+	// depend on how the schedule turns out.
 	int p[2];
-	if (pipe2(p, O_DIRECT) != 0)
+	if (pipe(p) != 0)
 		return false;
 	if (piece < 1)
 		piece = 1;
-	if (piece > 4096)
-		piece = 4096;
+	if (bytes.size() / piece > 24)
+		piece = bytes.size() / 24 + 1;
 	bool ok = true;
-	if (bytes.size() / piece > 14)
-		piece = bytes.size() / 14 + 1; // at most 16 packets fit the default pipe
-	if (piece > 4096)
-	{
-		close(p[0]);
-		close(p[1]);
-		return false;
-	}
-	for (size_t at = 0; at < bytes.size() && ok; at += piece)
-	{
-		size_t n = std::min(piece, bytes.size() - at);
-		ok = write(p[1], bytes.data() + at, n) == (ssize_t)n;
-	}
-	close(p[1]);
-	if (ok)
-	{
-		if (how == 1)
-			*out = json_object_from_fd(p[0]);
-		else
+	std::thread writer([&]() {
+		for (size_t at = 0; at < bytes.size(); at += piece)
 		{
-			char path[64];
-			snprintf(path, sizeof path, "/proc/self/fd/%d", p[0]);
-			*out = json_object_from_file(path);
+			size_t n = std::min(piece, bytes.size() - at), done = 0;
+			while (done < n)
+			{
+				ssize_t w = write(p[1], bytes.data() + at + done, n - done);
+				if (w <= 0)
+				{
+					ok = false;
+					break;
+				}
+				done += (size_t)w;
+			}
+			if (!ok)
+				break;
+			usleep(150);
 		}
+		close(p[1]);
+	});
+	if (how == 1)
+		*out = json_object_from_fd(p[0]);
+	else
+	{
+		char path[64];
+		snprintf(path, sizeof path, "/proc/self/fd/%d", p[0]);
+		*out = json_object_from_file(path);
 	}
+	// drain whatever the library left unread so the writer can finish, then join
+	{
+		char sink[4096];
+		int fl = fcntl(p[0], F_GETFL);
+		(void)fl;
+		while (read(p[0], sink, sizeof sink) > 0)
+			;
+	}
+	writer.join();
 	close(p[0]);
 	return ok;
 }
